@@ -45,7 +45,7 @@ for c in checks:
     meta["checks"][c] = info
 sh(f"git -C {wt} checkout -- func_adl_xAOD")
 shutil.rmtree(scratch, ignore_errors=True)
-out = Path("/verif/seeded") / f"{pid}-{k}"
+out = Path("/verif/seeded") / f"{pid}-{os.environ.get('SEED_TAG', '')}{k}"
 out.mkdir(parents=True, exist_ok=True)
 shutil.copy(patch, out / "patch.diff"); shutil.copy(demo, out / "demo.py")
 meta["confirmed"] = (r0.returncode == 0 and ap.returncode == 0 and "failed" not in tline[0] and r1.returncode != 0)
